@@ -23,6 +23,7 @@ mod uring;
 mod c25;
 mod conn;
 mod io;
+mod loops;
 mod c28;
 mod pool;
 mod ppx;
@@ -31,7 +32,7 @@ use report::Report;
 use serde_json::Value;
 
 fn scenarios() -> Vec<(&'static str, &'static str)> {
-    vec![("c07.raw", "C07"), ("c08.values", "C08"), ("c09.seq", "C09"), ("c10.sched", "C10"), ("c14.timed", "C14"), ("c15.mix", "C15"), ("c19.opts", "C19"), ("c25.local", "C25"), ("ep.wake", "C20"), ("ep.seq", "C20"), ("stk.grow", "C23"), ("c22.arrival", "C22"), ("uring.own", "C27"), ("ppx.wait", "C02"), ("ppx.stop", "C12"), ("ppx.stopwait", "C12"), ("ppx.stop2", "C12"), ("ppx.rewait", "C02"), ("ppx.mon", "C22"), ("stk.fault", "C24"), ("ep.interest", "C21"), ("io.c16", "C16"), ("io.c17", "C17"), ("io.c18", "C18"), ("io.conn", "C18"), ("c28.helpers", "C28"), ("pool.c01", "C01"), ("pool.c02", "C02"), ("pool.c05", "C05"), ("pool.c11", "C11"), ("pool.c12", "C12"), ("pool.c13", "C13")]
+    vec![("c07.raw", "C07"), ("c08.values", "C08"), ("c09.seq", "C09"), ("c10.sched", "C10"), ("c14.timed", "C14"), ("c15.mix", "C15"), ("c19.opts", "C19"), ("c25.local", "C25"), ("ep.wake", "C20"), ("ep.seq", "C20"), ("stk.grow", "C23"), ("c22.arrival", "C22"), ("uring.own", "C27"), ("ppx.wait", "C02"), ("ppx.stop", "C12"), ("ppx.stopwait", "C12"), ("ppx.stop2", "C12"), ("ppx.rewait", "C02"), ("ppx.mon", "C22"), ("stk.fault", "C24"), ("ep.interest", "C21"), ("io.c16", "C16"), ("io.c17", "C17"), ("io.c18", "C18"), ("io.conn", "C18"), ("c28.helpers", "C28"), ("pool.c01", "C01"), ("loops.stop", "C01"), ("pool.c02", "C02"), ("pool.c05", "C05"), ("pool.c11", "C11"), ("pool.c12", "C12"), ("pool.c13", "C13")]
 }
 
 fn run_scenario(name: &str, tier: &str, rep: &mut Report) -> bool {
@@ -58,6 +59,7 @@ fn run_scenario(name: &str, tier: &str, rep: &mut Report) -> bool {
         n if n.starts_with("pool.") => return pool::run(n, tier, rep),
         n if n.starts_with("ppx.") => return ppx::run(n, tier, rep),
         "io.conn" => conn::run(tier, rep),
+        "loops.stop" => loops::run(tier, rep),
         n if n.starts_with("io.") => io::run(n, tier, rep),
         "ep.seq" => epseq::run(tier, rep),
         n if n.starts_with("ep.") => return ep::run(n, tier, rep),
@@ -89,6 +91,7 @@ fn replay_scenario(name: &str, v: &Value, em: &mut runner::Emitter) -> bool {
         n if n.starts_with("ppx.") => ppx::replay(n, v, em),
         n if n.starts_with("pool.") => pool::replay(v, em),
         "io.conn" => conn::replay(v, em),
+        "loops.stop" => loops::replay(v, em),
         n if n.starts_with("io.") => io::replay(v, em),
         "ep.seq" => epseq::replay(v, em),
         n if n.starts_with("ep.") => ep::replay(v, em),
